@@ -52,7 +52,7 @@ def check(ctx):
                 "turn equal to the built-in default; two sources agreeing; for booleans all 8 true/false assignments) the real "
                 "flagSet() runs in a clean process state and the option's value must be the winner's value; every OTHER option "
                 "must keep its default. One evaluation = one (option, subset, assignment); non-trivial = at least one source "
-                "provides a value.")
+                "provides a value. Cases with a file are run with '-config <file>' before and after the other arguments.")
     ctx.assumptions += ["the configuration file is named with '-config <path>' (the form loadCfg recognises)",
                         "the list-valued sflow-type-filter is outside the property's kinds (int, string, bool)"]
     for wrong in ("Wrong1", "Wrong2"):
@@ -94,10 +94,17 @@ def check(ctx):
                 cli = cli_args(f, vs["cli"]) if s["cli"] else []
                 cases.append({"id": len(cases), "env": env, "file": file, "cli": cli})
                 meta.append((f, vs, s))
+                if s["file"]:
+                    # the same with "-config <file>" after the other arguments; with no other argument for this option, after
+                    # an argument that sets an unrelated option to its own default
+                    other = [x for x in fields if x["flag"] and x["kind"] == "int" and x["yaml"] != f["yaml"]][idx % 3]
+                    cli2 = cli if cli else ["-%s" % other["flag"], str(defaults[other["yaml"]])]
+                    cases.append({"id": len(cases), "env": env, "file": file, "cli": cli2, "cfglast": True})
+                    meta.append((f, vs, s))
     res = run(cases)
     for c, (f, vs, s), r in zip(cases, meta, res):
         srcs = [x for x in ("env", "file", "cli") if s[x]]
-        ctx.count([f["yaml"], srcs, [str(vs[x]) for x in srcs]], nontrivial=bool(srcs))
+        ctx.count([f["yaml"], srcs, [str(vs[x]) for x in srcs], c.get("cfglast", False)], nontrivial=bool(srcs))
         if r.get("panic"):
             ctx.violation("flagSet panicked for option %s" % f["yaml"], {"case": c})
             continue
